@@ -218,7 +218,8 @@ End Relation.
 Inductive esrc := ELit (e : assoc) | ERef (tj : nat) (a : axis) (id : text).
 Inductive minstr :=
 | IAdd (ti : nat) (a : axis) (m : list (text * esrc))
-| IDel (ti : nat) (keys : option (list text)) (s : axsel).
+| IDel (ti : nat) (keys : option (list text)) (s : axsel)
+| IRead (ti : nat) (a : axis) (id k : text).     (* t.metadata(id, axis)[k] *)
 Definition mt_empty : mtab := mkM [] [] [] None None.
 Definition entry_for (t : mtab) (a : axis) (id : text) : assoc :=
   match tpos id (m_ids a t), m_mds a t with
@@ -227,11 +228,28 @@ Definition entry_for (t : mtab) (a : axis) (id : text) : assoc :=
   end.
 Definition resolve (ts : list mtab) (s : esrc) : assoc :=
   match s with ELit e => e | ERef j a id => entry_for (nth j ts mt_empty) a id end.
+(* entries are default-None mappings (collections.defaultdict(lambda: None), table.py:689):
+   READING a key an id does not have leaves  key: None  behind in that entry *)
+Definition read_axis (ids : list text) (md : option (list assoc)) (id k : text) : option (list assoc) :=
+  match md, tpos id ids with
+  | Some l, Some i =>
+      match aget (nth i l []) k with
+      | Some _ => md
+      | None => Some (upd l i (aset (nth i l []) k tNone))
+      end
+  | _, _ => md
+  end.
+Definition read_md (t : mtab) (a : axis) (id k : text) : mtab :=
+  match a with
+  | Obs => mkM (m_oids t) (m_sids t) (m_mat t) (read_axis (m_oids t) (m_omd t) id k) (m_smd t)
+  | Samp => mkM (m_oids t) (m_sids t) (m_mat t) (m_omd t) (read_axis (m_sids t) (m_smd t) id k)
+  end.
 Definition mstep (ts : list mtab) (i : minstr) : list mtab :=
   match i with
   | IAdd ti a m =>
       upd ts ti (add_metadata (nth ti ts mt_empty) (map (fun p => (fst p, resolve ts (snd p))) m) a)
   | IDel ti keys s => upd ts ti (del_metadata (nth ti ts mt_empty) keys s)
+  | IRead ti a id k => upd ts ti (read_md (nth ti ts mt_empty) a id k)
   end.
 (* the states after every step *)
 Fixpoint mexec (ts : list mtab) (prog : list minstr) : list (list mtab) :=
